@@ -159,6 +159,26 @@ fn block_popcount(block: &[u64]) -> usize {
     block_popcount_portable(block)
 }
 
+/// Verification hook: the dispatching block popcount.
+#[cfg(feature = "verif-hooks")]
+pub(crate) fn verif_block_popcount(block: &[u64]) -> usize {
+    block_popcount(block)
+}
+
+/// Verification hook: the AVX2 block popcount, `None` without AVX2.
+#[cfg(feature = "verif-hooks")]
+pub(crate) fn verif_block_popcount_avx2(block: &[u64]) -> Option<usize> {
+    assert!(block.len() >= BLOCK);
+    #[cfg(all(target_arch = "x86_64", feature = "std"))]
+    {
+        if has_avx2() {
+            // SAFETY: AVX2 checked above; length asserted above.
+            return Some(unsafe { block_popcount_avx2(block) });
+        }
+    }
+    None
+}
+
 /// Portable block popcount. Also the correctness oracle for the SIMD kernels.
 #[inline]
 pub fn block_popcount_portable(block: &[u64]) -> usize {
